@@ -85,6 +85,8 @@ def run(ctx):
     ctx.rule("R20.e", "what counts as changed: the comparator behind values(onlychanged=True) -- which decides what pprint / script_repr may leave out -- interpreted on small containers: "
                       "equal iff same type, same keys and equal values KEY BY KEY (a dict with the default's keys in another order and positionally matching values is a changed value) -- "
                       "shared with R03.c", floor=1)
+    ctx.rule("R20.i", "script imports model: script_repr interpreted with a printer that needs `import shapes`, `import shapes3d`, `import pkg`, `import pkg.sub`: the import lines of the script "
+                      "bind every top-level module the printed text refers to, each line once", floor=1)
     ctx.rule("R20.n", "the value the printer reads is the value attribute access gives: no reader of the per-instance value store conflates an explicit None with 'not set' "
                       "(values() would report the class default for a parameter set to None, and the printed text rebuilds the default) -- shared with R15.g", floor=1)
     ctx.not_decided += ["that repr() of the leaf values (strings needing escapes, negative numbers) evaluates back to an equal value (Python's repr, not this code base)",
@@ -95,6 +97,7 @@ def run(ctx):
     float_model(ctx, "R20.b")
     object_printer_model(ctx, "R20.c")
     recursion_guard_rule(ctx, "R20.d")
+    script_imports_model(ctx, "R20.i")
     from checks.shared import comparator_model
     comparator_model(ctx, "R20.e")
     from checks.c15 import value_store_none_is_a_value
@@ -314,3 +317,54 @@ def recursion_guard_rule(ctx, rule):
             norm(defs[0])[:60] if defs else norm(keyexpr), "thread identity" if per_call_obj else "object identity",
             "while one thread prints an object, another thread that reaches the same object is taken for a recursive call and prints `...` for it -- the text evaluates to Ellipsis"),
             key=f.qualname + "::guard-key-not-per-call")
+
+
+def script_imports_model(ctx, rule):
+    """script_repr interpreted with the printer supplied by the model: printing the object appends the import lines
+    `import shapes`, `import shapes3d`, `import pkg`, `import pkg.sub` (and `import shapes` a second time) to the list and
+    returns text that refers to shapes.Point, shapes3d.Box, pkg.sub.Thing.
+
+    Specification: the emitted script starts with import lines that bind every top-level module the text refers to
+    (`import pkg.sub` binds pkg; `import shapes3d` does NOT bind shapes), each line once, followed by the printed text."""
+    from engine.absint import Interp, Obj, Unsupported
+    f = ctx.repo.func("param.parameterized.script_repr")
+    needed = ["import shapes", "import shapes3d", "import pkg", "import pkg.sub", "import shapes"]
+    rep = "shapes.Point(x=1, box=shapes3d.Box(), t=pkg.sub.Thing())"
+
+    def hook(fn, args, kwargs):
+        if fn == "pprint" and len(args) >= 2 and isinstance(args[1], list):
+            args[1].extend(needed)
+            return rep
+        if fn in ("sorted", "list", "set") and len(args) == 1:
+            v = hook.it.force(args[0])
+            if isinstance(v, (list, set, tuple)) and all(isinstance(x, str) for x in v):
+                return sorted(v) if fn == "sorted" else list(dict.fromkeys(v))      # a set of strings is modelled as a list without duplicates
+        return NotImplemented
+    it = Interp(ctx.hier, call_hook=hook)
+    hook.it = it
+    try:
+        outs = it.run_all(f, {"val": Obj("object_to_print"), "imports": None, "prefix": "\n    ", "settings": [], "unknown_value": "<?>", "qualify": True, "separator": "\n", "show_imports": True})
+    except Unsupported as e:
+        raise AnalysisError("%s: absint cannot interpret script_repr: %s" % (rule, e))
+    if len(outs) != 1 or outs[0].imprecise or outs[0].kind != "return" or not isinstance(outs[0].value, str):
+        raise AnalysisError("%s: script_repr is not interpretable precisely (%s)" % (rule, outs[0].notes[:2] if outs else "no outcome"))
+    ctx.abstract_cases += 1
+    text = outs[0].value
+    if not text.endswith(rep):
+        ctx.fail(rule, f, f.node, "script_repr does not end with the printed object", key=f.qualname + "::script-text")
+        return
+    head = [l for l in text[:-len(rep)].split("\n") if l.strip()]
+    bound = set()
+    for l in head:
+        if not l.startswith("import "):
+            raise AnalysisError("%s: script_repr emits a line before the object that the model cannot read (%r)" % (rule, l))
+        bound.add(l[len("import "):].split(".")[0].strip())
+    missing = [m for m in ("shapes", "shapes3d", "pkg") if m not in bound]
+    if missing:
+        ctx.fail(rule, f, f.node, "script imports model: the printed text refers to %s but the script's import lines %s do not bind %s: evaluating the script raises NameError (a module whose name "
+                                  "is a string prefix of another one's is not imported by importing the longer-named module)" % (rep.split("(")[0] + "(...)", head, missing),
+                 key=f.qualname + "::import-dropped", input="script_repr of an object from module `shapes` nested in one from module `shapes3d`")
+    elif len(head) != len(set(head)):
+        ctx.fail(rule, f, f.node, "script imports model: an import line is emitted twice (%s)" % head, key=f.qualname + "::import-twice")
+    else:
+        ctx.ok(rule, f, f.node, "script imports model: every top-level module the printed text refers to is bound by an emitted import line, each line once")
